@@ -151,15 +151,26 @@ def analyse(records, base, chain, status0, event_of_step, values_of=None, max_re
     failures = []
     inconc = []
 
-    def fail(kind, detail, model=None):
+    def fail(kind, detail, model=None, lhs=None, rhs=None):
         if len([f for f in failures if f['kind'] == kind]) >= max_report:
             return
         vals = None
+        reproduced = True
+        numeric = None
         if model is not None:
             vals = {str(d): str(model[d]) for d in model.decls()}
+            if lhs is not None and rhs is not None:
+                # re-evaluate both sides exactly at the counterexample: they must really differ there
+                try:
+                    a = symx._z3num(model.eval(lhs, model_completion=True))
+                    b = symx._z3num(model.eval(rhs, model_completion=True))
+                    numeric = {'from_the_code': float(a), 'reference_chain': float(b)}
+                    reproduced = (a != b)
+                except Exception as e:
+                    numeric = {'evaluation_failed': repr(e)[:100]}
         failures.append({'kind': kind, 'detail': detail, 'values': vals, 'decisions': None,
-                         'confirmed': {'reproduced': True, 'how': 'law obligation: expressions extracted from the real code\'s own draws/comparisons; counterexample = parameter values where they differ from the reference chain',
-                                       'model': vals}})
+                         'confirmed': {'reproduced': reproduced, 'how': 'law obligation: expressions extracted from the real code\'s own draws/comparisons, re-evaluated exactly at the counterexample parameter values',
+                                       'numeric': numeric, 'model': vals}})
 
     for rec in records:
         log, complete = rec[0], rec[1]
@@ -240,7 +251,7 @@ def analyse(records, base, chain, status0, event_of_step, values_of=None, max_re
             counts['clock-rate'] += 1
             ok, m = prover.valid(lift(rate) == tot, tuple(_cond_of(d) for d in region))
             if not ok:
-                fail('clock-rate', {'state': _st(node['status']), 'after': _p(prefix), 'rate_used': str(z3.simplify(lift(rate))), 'reference_total': str(z3.simplify(tot))}, m)
+                fail('clock-rate', {'state': _st(node['status']), 'after': _p(prefix), 'rate_used': str(z3.simplify(lift(rate))), 'reference_total': str(z3.simplify(tot))}, m, lift(rate), tot)
         masses = OrderedDict()
         for sig, br in node['branches'].items():
             ev = br['ev']
@@ -270,7 +281,7 @@ def analyse(records, base, chain, status0, event_of_step, values_of=None, max_re
             ok, m = prover.valid(mass * tot == lift(ref[ev]))
             if not ok:
                 fail('event-law', {'state': _st(node['status']), 'after': _p(prefix), 'event': str(ev), 'mass': str(z3.simplify(mass))[:300],
-                                   'reference': '(%s) / (%s)' % (z3.simplify(lift(ref[ev])), z3.simplify(tot))}, m)
+                                   'reference': '(%s) / (%s)' % (z3.simplify(lift(ref[ev])), z3.simplify(tot))}, m, mass * tot, lift(ref[ev]))
         for ev, r in ref.items():
             counts['no-missing-event'] += 1
             if ev not in masses:
